@@ -17,6 +17,10 @@ def handle (op : String) (j : Json) : Except String Json := do
     let base : Caps := { builtins := probe.filter defaultHas, futureKeywords := [], features := [] }
     let r := resolve base minus plus
     return Json.mkObj (probe.map fun n => (n, Json.bool (hasBuiltin r n)))
+  | "c19.gating" =>
+    let c : Caps := { builtins := ← getStrList j "builtins", futureKeywords := ← getStrList j "futureKeywords",
+                      features := ← getStrList j "features" }
+    return Json.arr ((mustSkip c).map fun r => Json.arr #[Json.str r.1, Json.str r.2]).toArray
   | _ => throw s!"unknown op {op}"
 
 end Driver.C19
